@@ -1,26 +1,50 @@
 """C02 / C04 / C11: spec/ListData.tla. TLC checks the algebraic properties over the whole small domain, emits every
-(existing list, update) case and short update histories; the Go driver executes them on the real FunctionData of
-representative list types; TLC validates every step (ListTrace)."""
-import json, os, time
+(existing list, update) case and short update histories; the Go drivers execute them
+  fd    on the real FunctionData of three hand-mapped list types,
+  e2e   through the whole stack (FeatureLocal API, write / notify / reply datagrams, the remote-feature cache, the data
+        delivered in data-change events),
+  refl  on the FunctionData of every registered list function that a reflective adapter can map onto the abstract item;
+TLC validates every step (ListTrace)."""
+import json, os, time, random
 from vlib import *
+import replica
 
 TYPES = [("limit", 1, True), ("setpoint", 1, True), ("ecparam", 2, False)]
 WHAT = {"C02": ("c02", {"local"}), "C04": ("c04", {"remote"}), "C11": ("c11", {"local", "remote"})}
 ASSUME = {
     "C02": ["stored items always carry their identifiers; an update list has at most one item per identifier and is either fully identified or a single identifier-less item",
             "with a selector the data item carries no identifier or the selected one; selectors name key fields (a selector on a field that is absent in a stored item is a robustness input, C05)",
-            "values: identifiers 1..3 (one key) / pairs (two keys), two value fields, three representative list types (two with changeability flag, one with two key fields) through spine.FunctionData; the reflective driver over all registered list types is listed in DESIGN.md as coverage to grow",
+            "values: identifiers 1..3 (one key) / pairs (two keys), two value fields; three hand-mapped list types through spine.FunctionData and end to end through the stack, and every registered list function the reflective adapter can map (unsigned-integer keys addressable by the selectors type; further key fields held constant) through spine.FunctionData; the functions it cannot map are listed in the evidence",
             "local = the remoteWrite=false path shared by the local API, reply and notify"],
     "C04": ["the addressed elements of a write are those it would modify or delete under the cmdOption rules (full: all existing elements; partial with identifiers: those identifiers; identifier-less: all; selector: the selected one; delete: the matching / all elements)",
             "an identifier unknown to the list may be appended or make the write fail (both allowed), but not be dropped under a success",
-            "an element without flag value counts as not changeable (its flag is not true)"],
-    "C11": ["snapshots = every object returned by DataCopy before a step; they are re-serialised after every later step (sequential aliasing only; the concurrent clause is a data-race statement outside this technique)",
+            "an element without flag value counts as not changeable (its flag is not true)",
+            "list functions whose elements carry a field tagged writecheck: loadControlLimitListData, setpointListData, deviceConfigurationKeyValueListData"],
+    "C11": ["snapshots = every object returned by DataCopy before a step, the data delivered in data-change events and the data returned by FeatureRemote.UpdateData; they are re-serialised after every later step (sequential aliasing only; the concurrent clause is a data-race statement outside this technique)",
             "histories of up to 3 updates after a snapshot over all shapes and origins"],
 }
 
 
 def consts(nk, flag, mode, maxlen, origins, rich, devs=()):
     return {"KnownDeviations": set(devs), "HasFlag": flag, "NKeys": nk, "Mode": mode, "MaxLen": maxlen, "Origins": set(origins), "Rich": rich}
+
+
+def generate(prop, nk, flag, origins, modes):
+    """cases / histories from TLC for one signature; returns (cases, states, transitions)"""
+    cases, states, trans = [], 0, 0
+    for mode, maxlen, rich in modes:
+        c = consts(nk, flag, mode, maxlen, origins, rich)
+        code, out = run_tlc("ListMC.tla", cfg_text("Spec", c, invariants=["Inv"], properties=["StepProperty"], view="View" if mode == "hist" else None,
+                                                   action_constraints=["Emit"]), timeout=3000, workers=1, heap="8g")
+        st = tlc_stats(out)
+        if not tlc_ok(code, out) or not st:
+            raise Inconclusive("ListMC failed (%d keys, flag %s, %s):\n%s" % (nk, flag, mode, out[-2500:]))
+        states += st["distinct"]
+        trans += st["generated"]
+        b = printed_raw(out, "B")
+        log("[%s] %d key(s), flag %s, %s: %d states, %d cases/behaviours" % (prop, nk, flag, mode, st["distinct"], len(b)))
+        cases += b
+    return cases, states, trans
 
 
 def run(prop, tier, seed, replay=None):
@@ -31,106 +55,151 @@ def run(prop, tier, seed, replay=None):
         known = open_deviations(prop)
         tag, origins = WHAT[prop]
         quick = tier == "quick"
+        rnd = random.Random(seed)
+        survey = json.loads(run_harness(["list-survey"]))
+        units = []      # (typ, nk, flag, layer, cases)
+        states = trans = 0
         if replay:
             r = json.load(open(replay))
-            jobs = [(r["type"], r["nkeys"], r["flag"], [json.dumps(r["case"])], r.get("layer", "fd"))]
+            units = [(r["type"], r["nkeys"], r["flag"], r.get("layer", "fd"), [json.dumps(r["case"])])]
         else:
             clear_replays(prop)
-            jobs = []
-        states = trans = 0
-        if not replay:
+            # one generation per signature (number of key fields, changeability flag), side by side
+            sigs = {(1, True): [("cases", 1, True), ("hist", 2 if quick else 3, False)],
+                    (1, False): [("cases", 1, not quick), ("hist", 2, False)],
+                    (2, False): [("cases", 1, not quick), ("hist", 2 if quick else 3, False)]}
+            if prop == "C04":
+                del sigs[(1, False)]        # C04 speaks about list functions with a changeability flag
+            gen = dict(zip(sigs, pmap(lambda s: generate(prop, s[0], s[1], origins, sigs[s]), list(sigs), workers=3)))
+            for s in gen:
+                states += gen[s][1]
+                trans += gen[s][2]
             for typ, nk, flag in TYPES:
-                cases = []
-                for mode, maxlen, rich in ([("cases", 1, not quick or typ == "limit"), ("hist", 2 if quick else 3, False)]):
-                    if mode == "hist" and quick and typ == "setpoint":
-                        continue
-                    c = consts(nk, flag, mode, maxlen, origins, rich)
-                    code, out = run_tlc("ListMC.tla", cfg_text("Spec", c, invariants=["Inv"], properties=["StepProperty"], view="View" if mode == "hist" else None,
-                                                               action_constraints=["Emit"]), timeout=3000, workers=1, heap="8g")
-                    st = tlc_stats(out)
-                    if not tlc_ok(code, out) or not st:
-                        raise Inconclusive("ListMC failed (%s %s):\n%s" % (typ, mode, out[-2500:]))
-                    states += st["distinct"]; trans += st["generated"]
-                    b = printed_raw(out, "B")
-                    log("[%s] %s %s: %d states, %d cases/behaviours" % (prop, typ, mode, st["distinct"], len(b)))
-                    cases += b
-                jobs.append((typ, nk, flag, cases, "fd"))
-                # the same cases end to end: FeatureLocal API, write / notify / reply datagrams, FeatureRemote cache
-                # (quick: all histories and every third single-update case)
-                e2e = [c for i, c in enumerate(cases) if not quick or i % 3 == 0 or '"init":[]' in c.replace(" ", "")]
-                jobs.append((typ, nk, flag, e2e, "e2e"))
-        viol, total_steps, total_lines, devs_used, samples, distinct = 0, 0, 0, {}, [], set()
-        ncases = 0
-        layer_steps = {"fd": 0, "e2e": 0}
-        for typ, nk, flag, cases, layer in jobs:
-            ncases += len(cases)
-            shards = shard(cases, NCPU)
-            files = []
-            for i, sh in enumerate(shards):
-                bf, tf = sc.path("%s_%s_%d.in" % (typ, layer, i)), sc.path("%s_%s_%d.trace" % (typ, layer, i))
+                cases = gen[(nk, flag)][0]
+                if quick and typ == "setpoint":
+                    cases = [c for c in cases if '"init":[]' not in c.replace(" ", "")]     # (the histories are run on limit)
+                units.append((typ, nk, flag, "fd", cases))
+                # the same cases end to end (quick: all histories and a third of the single-update cases)
+                units.append((typ, nk, flag, "e2e", [c for c in cases if not quick or '"init":[]' in c.replace(" ", "") or rnd.random() < 0.34]))
+            # every registered list function the reflective adapter can map
+            per_fn = 500 if quick else 6000
+            for inf in survey:
+                if not inf["usable"] or (prop == "C04" and not inf["flag"]):
+                    continue
+                sig = (inf["nkeys"], bool(inf["flag"]))
+                pool = gen[sig][0]
+                units.append(("refl:" + inf["fn"], sig[0], sig[1], "fd", rnd.sample(pool, min(len(pool), per_fn))))
+        # ---- execute on the code ----
+        work = []       # (unit index, shard index, cases file, trace file)
+        for ui, (typ, nk, flag, layer, cases) in enumerate(units):
+            nsh = 1 if typ.startswith("refl:") else NCPU
+            for i, sh in enumerate(shard(cases, nsh)):
+                bf, tf = sc.path("u%d_%d.in" % (ui, i)), sc.path("u%d_%d.trace" % (ui, i))
                 open(bf, "w").write("\n".join(sh) + "\n")
-                files.append((bf, tf))
-            sub = "list-replay" if layer == "fd" else "list-e2e"
-            stats = pmap(lambda f: json.loads(run_harness([sub, "-type", typ, "-in", f[0], "-out", f[1]])), files)
-            total_steps += sum(s["steps"] for s in stats)
-            layer_steps[layer] += sum(s["steps"] for s in stats)
-            cfg = cfg_text("TraceSpec", {"KnownDeviations": set(known.keys()), "HasFlag": flag, "Checked": {tag}}, invariants=["Final"], postcondition="Done")
+                work.append((ui, i, bf, tf))
 
-            def val(f):
-                code, out = run_tlc("ListTrace.tla", cfg, timeout=3000, workers=1, heap="3g", env={"VERIF_TRACE": f[1]}, light=True)
-                if not tlc_ok(code, out):
-                    raise Inconclusive("list trace validation failed on %s:\n%s" % (f[1], out[-2500:]))
-                return printed(out, "BAD")[0], printed(out, "DEVS")[0], printed(out, "LINES")[0]
-            res = pmap(val, files)
-            # binding self-test on the first shard: corrupt one stored value
-            lines = open(files[0][1]).read().splitlines()
+        def execu(w):
+            typ, layer = units[w[0]][0], units[w[0]][3]
+            return json.loads(run_harness(["list-replay" if layer == "fd" else "list-e2e", "-type", typ, "-in", w[2], "-out", w[3]]))
+        stats = pmap(execu, work)
+        layer_steps = {"fd": 0, "e2e": 0, "refl": 0}
+        for w, s in zip(work, stats):
+            layer_steps["refl" if units[w[0]][0].startswith("refl:") else units[w[0]][3]] += s["steps"]
+        total_steps = sum(layer_steps.values())
+        ncases = sum(len(u[4]) for u in units)
+        # ---- validate: trace files grouped by flag into NCPU files each; a line is found again through (unit, shard, ci) ----
+        groups = {}
+        for w in work:
+            groups.setdefault(units[w[0]][2], []).append(w)
+        vfiles = []     # (flag, file, index: list of (work item, line in its trace file))
+        for flag, ws in groups.items():
+            ws = sorted(ws, key=lambda w: -os.path.getsize(w[3]))
+            bins, sizes = [[] for _ in range(NCPU)], [0] * NCPU
+            for w in ws:
+                j = sizes.index(min(sizes))
+                bins[j].append(w)
+                sizes[j] += os.path.getsize(w[3])
+            for j, b in enumerate(bins):
+                vf = sc.path("v_%s_%d.trace" % (flag, j))
+                index = []
+                with open(vf, "w") as out:
+                    for w in b:
+                        for n, l in enumerate(open(w[3])):
+                            out.write(l)
+                            index.append((w, n))
+                if index:
+                    vfiles.append((flag, vf, index))
+
+        def cfg_for(flag, devs):
+            return cfg_text("TraceSpec", {"KnownDeviations": set(devs), "HasFlag": flag, "Checked": {tag}}, invariants=["Final"], postcondition="Done")
+
+        def val(v):
+            code, out = run_tlc("ListTrace.tla", cfg_for(v[0], known.keys()), timeout=3000, workers=1, heap="3g", env={"VERIF_TRACE": v[1]}, light=True)
+            if not tlc_ok(code, out):
+                raise Inconclusive("list trace validation failed on %s:\n%s" % (v[1], out[-2500:]))
+            return printed(out, "BAD")[0], printed(out, "DEVS")[0], printed(out, "LINES")[0]
+        res = pmap(val, vfiles)
+        # binding self-test: corrupt one stored value / one snapshot report of a real line
+        if not replay:
+            flag, vf, index = vfiles[0]
+            lines = open(vf).read().splitlines()
             k = next((i for i, l in enumerate(lines) if json.loads(l)["store"] and json.loads(l)["ok"]
                       and ((tag == "c04") == json.loads(l)["u"]["remote"] or tag == "c11")), None)
-            if k is not None and not replay:
-                e = json.loads(lines[k])
-                if tag == "c11":
-                    e["snapchg"] = [0]
-                else:
-                    e["store"][0]["v"] += 5
-                open(sc.path("selftest"), "w").write(json.dumps(e) + "\n")
-                code, out = run_tlc("ListTrace.tla", cfg_text("TraceSpec", {"KnownDeviations": set(), "HasFlag": flag, "Checked": {tag}}, invariants=["Final"], postcondition="Done"),
-                                    timeout=300, workers=1, heap="2g", env={"VERIF_TRACE": sc.path("selftest")}, light=True)
-                if not (tlc_ok(code, out) and printed(out, "BAD")[0]):
-                    raise Inconclusive("binding self-test failed: corrupted line accepted")
-            seen = set()
-            for (bf, tf), (bad, devs, n) in zip(files, res):
-                total_lines += n
-                tl = None
-                for b in bad:
-                    if tl is None:
-                        tl = open(tf).read().splitlines()
-                    e = json.loads(tl[b["line"] - 1])
-                    key = (e.get("path", "fd"), e["u"]["partial"], e["u"]["delete"], e["u"]["remote"], e["u"]["persist"], b["why"], len(e["u"]["data"]))
-                    if key in seen:
-                        continue
-                    seen.add(key)
-                    viol += 1
-                    path = write_replay(prop, "%s_%s_%s_%s_%s" % (typ, e.get("path", "fd"), e["u"]["partial"], e["u"]["delete"], b["why"].replace(" ", "-")[:20]),
-                                        {"property": prop, "type": typ, "nkeys": nk, "flag": flag, "layer": layer, "path": e.get("path", "fd"),
-                                         "case": json.loads(open(bf).read().splitlines()[e["ci"]]) if b["why"] in ("snapshot changed",) or replay else {"init": e["pre"], "ups": [e["u"]]},
-                                         "observed": {"ok": e["ok"], "store": e["store"], "ret": e["ret"], "snapchg": e["snapchg"], "panic": e["panic"]}, "why": b["why"]})
+            if k is None:
+                raise Inconclusive("binding self-test: no suitable line")
+            e = json.loads(lines[k])
+            if tag == "c11":
+                e["snapchg"] = [0]
+            else:
+                e["store"][0]["v"] += 5
+            open(sc.path("selftest"), "w").write(json.dumps(e) + "\n")
+            code, out = run_tlc("ListTrace.tla", cfg_for(flag, ()), timeout=300, workers=1, heap="2g", env={"VERIF_TRACE": sc.path("selftest")}, light=True)
+            if not (tlc_ok(code, out) and printed(out, "BAD")[0]):
+                raise Inconclusive("binding self-test failed: corrupted line accepted")
+        viol, total_lines, devs_used, samples, distinct, seen = 0, 0, {}, [], set(), set()
+        for (flag, vf, index), (bad, devs, n) in zip(vfiles, res):
+            total_lines += n
+            tl = open(vf).read().splitlines()
+            for b in bad:
+                e = json.loads(tl[b["line"] - 1])
+                w, _ = index[b["line"] - 1]
+                typ, nk, _, layer, _ = units[w[0]]
+                key = (typ, e.get("path", "fd"), e["u"]["partial"], e["u"]["delete"], e["u"]["remote"], e["u"]["persist"], b["why"], len(e["u"]["data"]))
+                if key in seen:
+                    continue
+                seen.add(key)
+                viol += 1
+                whole = b["why"] == "snapshot changed" or replay
+                path = write_replay(prop, "%s_%s_%s_%s_%s" % (typ.replace("refl:", ""), e.get("path", "fd"), e["u"]["partial"], e["u"]["delete"], b["why"].replace(" ", "-")[:20]),
+                                    {"property": prop, "type": typ, "nkeys": nk, "flag": flag, "layer": layer, "path": e.get("path", "fd"),
+                                     "case": json.loads(open(w[2]).read().splitlines()[e["ci"]]) if whole else {"init": e["pre"], "ups": [e["u"]]},
+                                     "observed": {"ok": e["ok"], "store": e["store"], "ret": e["ret"], "snapchg": e["snapchg"], "panic": e["panic"]}, "why": b["why"]})
+                if viol <= 40:
                     print("VIOLATION property=%s replay=%s" % (prop, path))
                     print("  %s (%s) list %s, update %s: %s" % (typ, e.get("path", "FunctionData"), json.dumps(e["pre"]), json.dumps(e["u"]), b["why"]))
-                if isinstance(devs, dict):
-                    for name, d in devs.items():
-                        if name not in devs_used:
-                            tl = tl or open(tf).read().splitlines()
-                            devs_used[name] = {"n": 0, "first": json.loads(tl[d["first"] - 1])}
-                        devs_used[name]["n"] += d["n"]
-            for l in lines[:3000]:
+            if isinstance(devs, dict):
+                for name, d in devs.items():
+                    if name not in devs_used:
+                        devs_used[name] = {"n": 0, "first": json.loads(tl[d["first"] - 1])}
+                    devs_used[name]["n"] += d["n"]
+            for l in tl[:4000]:
                 e = json.loads(l)
-                distinct.add((typ, e.get("path", "fd"), e["u"]["partial"], e["u"]["delete"], e["u"]["remote"], e["u"]["persist"], len(e["u"]["data"]), e["ok"], len(e["pre"]), len(e["store"])))
+                distinct.add((e.get("fn", ""), e.get("path", "fd"), e["u"]["partial"], e["u"]["delete"], e["u"]["remote"], e["u"]["persist"], len(e["u"]["data"]), e["ok"], len(e["pre"]), len(e["store"])))
                 if len(samples) < 3 and e["u"]["partial"] != "none" and e["pre"]:
-                    samples.append({"type": typ, "pre": e["pre"], "update": e["u"], "ok": e["ok"], "store": e["store"]})
+                    samples.append({"function": e.get("fn", ""), "path": e.get("path", "fd"), "pre": e["pre"], "update": e["u"], "ok": e["ok"], "store": e["store"]})
         if replay:
             if not viol:
                 print("replay: accepted by the specification")
             return 1 if viol else 0
+        beyond = None
+        if prop == "C02":
+            # observational, beyond the listed properties: replica convergence (spec/Replica.tla)
+            lim = next(u for u in units if u[0] == "limit" and u[3] == "fd")[4]
+            pool = [c for c in lim if '"persist":true' in c.replace(" ", "")]
+            beyond = replica.run(sc, random.Random(seed).sample(pool, min(len(pool), 6000 if quick else len(pool))))
+            if "code" in beyond:
+                log("[C02] beyond the listed properties: replica diverged after %d of %d changes of the real server feature (design level: %d of %d cases); %d steps not as modelled" % (
+                    beyond["code"]["replica_diverged"], beyond["code"]["changes_executed"], beyond["design"]["diverging"], beyond["design"]["cases"], beyond["code"]["not_as_modelled"]))
         for name, d in devs_used.items():
             f = known.get(name)
             if f:
@@ -140,16 +209,20 @@ def run(prop, tier, seed, replay=None):
             else:
                 viol += 1
                 print("VIOLATION property=%s replay=none (deviation %s used but not listed)" % (prop, name))
+        refl_fns = sorted(u[0][5:] for u in units if u[0].startswith("refl:"))
         cov = {"states": states, "transitions": trans, "traces_validated_against_impl": ncases, "evaluations": total_steps,
                "distinct_nontrivial": len(distinct),
-               "rule": "every (existing list, update) pair of the small domain (TLC initial-state enumeration) and BFS transition cover of update histories, for three list types; "
-                       "distinct = distinct (type, filter shape, origin, persist, data length, outcome, list lengths) classes in a sample of the trace",
-               "samples": samples, "trace_lines": total_lines, "steps_by_layer": layer_steps, "exhaustive": True, "deviations_used": {k: v["n"] for k, v in devs_used.items()},
+               "rule": "every (existing list, update) pair of the small domain (TLC initial-state enumeration) and BFS transition cover of update histories per signature (key fields, flag); "
+                       "executed on three hand-mapped list types (FunctionData and end to end) and on every list function the reflective adapter maps (sample per function in the quick tier); "
+                       "distinct = distinct (function, path, filter shape, origin, persist, data length, outcome, list lengths) classes in a sample of the trace",
+               "samples": samples, "trace_lines": total_lines, "steps_by_layer": layer_steps, "beyond_listed_properties": beyond,
+               "list_functions_reflective": {"covered": refl_fns, "n_covered": len(refl_fns),
+                                             "not_mapped": {i["fn"]: i["why"] for i in survey if not i["usable"] and "not a list" not in i["why"]}},
+               "exhaustive": True, "deviations_used": {k: v["n"] for k, v in devs_used.items()},
                "binding_selftest": {"done": True, "rejected": True},
                "checker_cmd": "tlc ListMC.tla (INVARIANT Inv, PROPERTY StepProperty); tlc ListTrace.tla"}
-        level = "model_checking"
-        write_evidence(prop, tier, seed, level, cov, ASSUME[prop], time.time() - t0, viol)
-        log("[%s] %s: %d cases, %d steps on the code, %d violations classes, %.1fs" % (prop, tier, ncases, total_steps, viol, time.time() - t0))
+        write_evidence(prop, tier, seed, "model_checking", cov, ASSUME[prop], time.time() - t0, viol)
+        log("[%s] %s: %d cases, %d steps on the code (%s), %d violation classes, %.1fs" % (prop, tier, ncases, total_steps, layer_steps, viol, time.time() - t0))
         return 1 if viol else 0
     finally:
         sc.close()
